@@ -7,7 +7,7 @@ ID = "C13"
 PROPS = "Props/C13.v"
 GEN = ["sm2", "sm2sig"]      # curve constants (sm2/p256.go) and default_uid / limits / mode values (sm2/sm2.go)
 LEGS = [{"driver": "c13", "runner": ("sm2", "Extract/ExtractSM2.v", "Sm2_model")}]
-COQ_TIMEOUT = 2400
+COQ_TIMEOUT = 5400
 
 TECHNIQUE = ("Coq proof over an executable model of keyExchange / KeyExchangeA / KeyExchangeB / keXHat / keCoordBytes / ZA / kdf "
              "(all keys, ephemerals, identities, key lengths, both roles); model tied to /repo by differential runs of the extracted model; "
